@@ -159,7 +159,7 @@ func (f *Frame) instr(in ssa.Instruction, guard string, st *State) {
 		for _, r := range x.Results {
 			rs = append(rs, f.val(r))
 		}
-		f.rets = append(f.rets, &retRec{guard: guard, results: rs, state: st.clone()})
+		f.rets = append(f.rets, &retRec{block: x.Block().Index, guard: guard, results: rs, state: st.clone()})
 	case *ssa.If:
 		c := f.val(x.Cond).T
 		if e.declared[c] {
@@ -418,7 +418,7 @@ func (f *Frame) makeSlice(x *ssa.MakeSlice, guard string, st *State) {
 	r := e.newRef(st, "mk")
 	elem := x.Type().Underlying().(*types.Slice).Elem()
 	hn, hs := e.elemHeap(elem)
-	zeroArr := fmt.Sprintf("((as const (Array Int %s)) %s)", e.tt().sortOf(elem), e.tt().zero(elem))
+	zeroArr := e.tt().zeroArray(e.tt().sortOf(elem), e.tt().zero(elem))
 	e.setHeap(st, hn, hs, fmt.Sprintf("(store %s %s %s)", e.getHeap(st, hn, hs), r, zeroArr))
 	f.bind(x, fmt.Sprintf("(mk-slice %s 0 %s %s)", r, ln, cp))
 }
@@ -778,6 +778,8 @@ func (f *Frame) convert(x *ssa.Convert, guard string, st *State) {
 			arr := e.fresh("s2b_arr", "(Array Int Int)")
 			e.assert(fmt.Sprintf("(forall ((k Int)) (! (=> (and (<= 0 k) (< k (slen %s))) (= (select %s k) (sat %s k))) :pattern ((select %s k))))", xv.T, arr, xv.T, arr))
 			e.setHeap(st, hn, hs, fmt.Sprintf("(store %s %s %s)", e.getHeap(st, hn, hs), r, arr))
+			e.declFun("bstr", []string{sInt}, sStr)
+			e.assert(fmt.Sprintf("(= (bstr %s) %s)", r, xv.T))
 			f.bind(x, fmt.Sprintf("(mk-slice %s 0 (slen %s) (slen %s))", r, xv.T, xv.T))
 		} else {
 			f.set(x, f.freshVal(x.Name(), to))
